@@ -66,6 +66,11 @@ def gen(rng, i):
         if a not in seen:
             seen.append(a)
     ops += [["ref", a] for a in seen]
+    if i % 5 == 2:
+        # converting the problem between its flavours in the middle of a history is no event at all: everything shown afterwards
+        # is still what a freshly built problem shows at those parameters (weights, data and threshold included)
+        k = len(ops) // 2
+        ops = ops[:k] + [["into_par"] if i % 10 == 2 else ["into_seq"]] + ops[k:]
     c["ops"] = ops
     if i % 6 == 5:
         rescale_case(c)         # the same history in units where all parameters are tiny in absolute terms
